@@ -1071,6 +1071,30 @@ impl Exec {
                 self.sym.blobs.insert(blob.clone(), (d, p));
                 (blob, d, p)
             }
+            "trailing" | "truncated" => {
+                // (as harness/src/tower.rs) a blob that authenticates under the dispute id but whose plaintext is not exactly
+                // one transaction: a serialized penalty followed by extra bytes / cut short
+                use bitcoin::hashes::sha256;
+                use chacha20poly1305::aead::{Aead, NewAead};
+                let d = spec["d"].as_i64().unwrap();
+                let p = spec["p"].as_i64().unwrap();
+                let dtx = self.tx(d);
+                let ptx = self.tx(p);
+                let mut plain = consensus::serialize(&ptx);
+                if spec["kind"] == "trailing" {
+                    plain.extend(vec![0x42u8; spec["extra"].as_u64().unwrap_or(7) as usize]);
+                } else {
+                    let cut = spec["cut"].as_u64().unwrap_or(3) as usize;
+                    plain.truncate(plain.len().saturating_sub(cut));
+                }
+                let k = sha256::Hash::hash(dtx.compute_txid().as_byte_array());
+                let cipher = chacha20poly1305::ChaCha20Poly1305::new(chacha20poly1305::Key::from_slice(k.as_byte_array()));
+                let blob = cipher.encrypt(&chacha20poly1305::Nonce::default(), plain.as_ref()).unwrap();
+                self.sym.garbled += 1;
+                let g = self.sym.garbled;
+                self.sym.blobs.insert(blob.clone(), (-g, 0));
+                (blob, -g, 0)
+            }
             "garbled" => {
                 let n = spec["size"].as_u64().unwrap() as usize;
                 self.sym.garbled += 1;
